@@ -249,3 +249,280 @@ fn emit_eobrun_contract() {
     kani::cover!(eobrun == 1 && !has_ref);
     kani::cover!(has_ref && rlen == 10 && ssss == 14);
 }
+
+// ================================================================================================
+// PART 2: EOB-run accounting of progressive scans (T.81 G.1.2.2 Figures G.3 / G.4, G.1.2.3 Figures G.7 - G.9)
+// ================================================================================================
+// A band that ends in zero coefficients is not coded by itself: the encoder counts such blocks in EOBRUN and codes
+// the run when a block with something to code follows, at the end of the scan / restart interval, or when the run
+// reaches its maximum 0x7FFF = 32767 ("if EOBRUN = X'7FFF' then Encode_EOBRUN", Figures G.3 and G.7). Hence between
+// blocks 0 <= EOBRUN <= 32766 (invariant assumed on entry and proved on exit), and EOB14 followed by 14 one-bits is the
+// longest run ever coded (symbol 0xF0 is ZRL, there is no EOB15).
+// Refinement scan (successive approximation, Figure G.7 Encode_AC_coefficients_SA), for a band ZZ(Ss..Se):
+//     R = 0; BR = empty
+//     for each coefficient v of the band:
+//         v == 0:   R += 1
+//         |v| > 1:  append bit 0 of v to BR                                  (correction bit of an already-nonzero coefficient)
+//         |v| == 1: Encode_EOBRUN; code(R << 4 | 1); sign bit (1 = positive); BR; R = 0; BR = empty   (newly nonzero)
+//     at the end: if R > 0 or BR not empty: EOBRUN += 1; BR is appended to the buffered bits BE;
+//                                           if EOBRUN = 0x7FFF: Encode_EOBRUN
+//     Encode_EOBRUN (Figures G.4, G.9): nothing if EOBRUN = 0; else code(SSSS << 4), SSSS = floor(log2 EOBRUN), the SSSS
+//     low-order bits of EOBRUN, then the buffered bits BE; EOBRUN = 0, BE = empty.
+//     (ZRL is only needed for R > 15; the bands of these obligations are shorter.)
+// `spec_refinement` below is this procedure producing the list of (value, length) bit fields; it is compared bit by bit
+// with what the real functions wrote. Code table of these obligations (built by the real HuffmanCode::build, with the
+// Vec::push / fill models justified in bit_writer.rs): 5-bit code words, EOBn <-> n, ZRL <-> 15, (run r, size 1) <-> 16 + r.
+const CODE_LEN: usize = 5;
+
+fn table_progressive() -> BuiltHuffmanTable {
+    let mut counts = [0u8; 17];
+    counts[CODE_LEN] = 32;
+    let values: Vec<u8> = vec![
+        0x00, 0x10, 0x20, 0x30, 0x40, 0x50, 0x60, 0x70, 0x80, 0x90, 0xa0, 0xb0, 0xc0, 0xd0, 0xe0, 0xf0, // EOB0..EOB14, ZRL
+        0x01, 0x11, 0x21, 0x31, 0x41, 0x51, 0x61, 0x71, 0x81, 0x91, 0xa1, 0xb1, 0xc1, 0xd1, 0xe1, // (run r, size 1)
+        0x00, // sentinel: no code
+    ];
+    crate::huffman::HuffmanCode { is_ac: true, id: 0, is_last: true, counts, values }.build()
+}
+
+/// a scan state between two blocks: EOBRUN = e, at most one buffered correction-bit entry (only while a run is pending);
+/// the buffers get capacity for the push model
+fn state_between_blocks<'t>(table: &'t BuiltHuffmanTable, e: u32, prior: Option<(u64, u8)>) -> ScanState<'t> {
+    let mut st = ScanState::new(1);
+    st.try_init_ac_table(table); // process_scan does this before any block is coded (scan.rs:438)
+    st.eobrun = e;
+    st.refinement_bits = Vec::with_capacity(4);
+    st.refinement_bitlen = Vec::with_capacity(4);
+    if let Some((bits, len)) = prior {
+        st.refinement_bits.push(bits);
+        st.refinement_bitlen.push(len);
+    }
+    st
+}
+
+/// bit fields in the order in which they are written
+struct Fields {
+    f: [(u64, usize); 12],
+    n: usize,
+}
+
+impl Fields {
+    fn put(&mut self, v: u64, len: usize) {
+        self.f[self.n] = (v, len);
+        self.n += 1;
+    }
+    fn total(&self) -> usize {
+        let mut t = 0;
+        let mut i = 0;
+        while i < 12 {
+            t += self.f[i].1;
+            i += 1;
+        }
+        t
+    }
+    /// bit k of the concatenation (MSB of every field first)
+    fn bit(&self, k: usize) -> u8 {
+        let mut start = 0;
+        let mut r = 0;
+        let mut i = 0;
+        while i < 12 {
+            let (v, len) = self.f[i];
+            if k >= start && k < start + len {
+                r = bit_of_value(v, len, k - start);
+            }
+            start += len;
+            i += 1;
+        }
+        r
+    }
+}
+
+/// Encode_EOBRUN of the spec state (e, buffered entries be[..nbe])
+fn spec_encode_eobrun(out: &mut Fields, e: &mut u32, be: &mut [(u64, usize); 2], nbe: &mut usize) {
+    if *e == 0 {
+        return;
+    }
+    let mut ssss = 0usize;
+    while (*e >> (ssss + 1)) != 0 {
+        ssss += 1;
+    }
+    out.put(ssss as u64, CODE_LEN); // EOBn <-> code word n
+    out.put((*e & ((1u32 << ssss) - 1)) as u64, ssss);
+    let mut i = 0;
+    while i < 2 {
+        if i < *nbe {
+            out.put(be[i].0 & ((1u64 << be[i].1) - 1), be[i].1);
+        }
+        i += 1;
+    }
+    *e = 0;
+    *nbe = 0;
+}
+
+/// Figure G.7 for a short band; returns (fields written, EOBRUN after, buffered entries after)
+fn spec_refinement(ac: &[i16], e0: u32, prior: Option<(u64, u8)>) -> (Fields, u32, [(u64, usize); 2], usize) {
+    let mut out = Fields { f: [(0, 0); 12], n: 0 };
+    let mut e = e0;
+    let mut be = [(0u64, 0usize); 2];
+    let mut nbe = 0usize;
+    if let Some((b, l)) = prior {
+        be[0] = (b, l as usize);
+        nbe = 1;
+    }
+    let (mut r, mut br, mut brlen) = (0u64, 0u64, 0usize);
+    let mut i = 0;
+    while i < ac.len() {
+        let v = ac[i];
+        if v == 0 {
+            r += 1;
+        } else if v != 1 && v != -1 {
+            br = (br << 1) | (v & 1) as u64;
+            brlen += 1;
+        } else {
+            spec_encode_eobrun(&mut out, &mut e, &mut be, &mut nbe);
+            out.put(16 + r, CODE_LEN); // (run r, size 1) <-> code word 16 + r
+            out.put((v == 1) as u64, 1);
+            out.put(br, brlen);
+            r = 0;
+            br = 0;
+            brlen = 0;
+        }
+        i += 1;
+    }
+    if r > 0 || brlen > 0 {
+        e += 1;
+        be[nbe] = (br, brlen);
+        nbe += 1;
+        if e == 0x7fff {
+            spec_encode_eobrun(&mut out, &mut e, &mut be, &mut nbe);
+        }
+    }
+    (out, e, be, nbe)
+}
+
+/// run process_progressive_refinement on the concrete band `ac` from every state between blocks and compare with the spec
+fn check_refinement(table: &BuiltHuffmanTable, ac: &[i16]) {
+    let e: u32 = kani::any();
+    kani::assume(e <= 32766); // invariant between blocks (see above); proved on exit below
+    let has_prior: bool = kani::any();
+    let pbits: u64 = kani::any();
+    let plen: u8 = kani::any();
+    kani::assume(plen <= 10);
+    kani::assume(!has_prior || e > 0); // correction bits are only buffered while a run is pending
+    let prior = if has_prior { Some((pbits, plen)) } else { None };
+    let mut st = state_between_blocks(table, e, prior);
+    let r = process_progressive_refinement(&mut st, table, None, ac, None);
+    assert!(r.is_ok(), "[C17,C01] every needed symbol has a code in this table: Ok");
+    std::mem::forget(r);
+    let (want, e1, be, nbe) = spec_refinement(ac, e, prior);
+    assert!(st.eobrun <= 32766, "[C17,C01] invariant: the run never stays at 32767 (there is no EOB15)");
+    assert!(st.eobrun == e1, "[C17] EOBRUN after the block: +1 iff the band ends with a pending zero run OR pending correction bits (T.81 Figure G.7), reset when coded");
+    assert!(st.refinement_bits.len() == nbe && st.refinement_bitlen.len() == nbe, "[C17] buffered correction-bit entries: this block's are appended to a pending run, none remain after a coded run");
+    let j: usize = kani::any();
+    if j < nbe {
+        assert!(st.refinement_bitlen[j] as usize == be[j].1, "[C17] one correction bit per already-nonzero coefficient");
+        assert!(st.refinement_bits[j] & ((1u64 << be[j].1) - 1) == be[j].0 & ((1u64 << be[j].1) - 1), "[C17] buffered correction bits, earlier entries first, band order inside an entry");
+    }
+    let total = want.total();
+    let Some(raw) = drain(&mut st, total) else {
+        assert!(false, "[C17] exactly the bit fields of T.81 Figure G.7 are written");
+        return;
+    };
+    let k: usize = kani::any();
+    kani::assume(k < total);
+    assert!(bit_of_bytes(&raw, k) == want.bit(k), "[C17] written bits == Encode_EOBRUN / R-ZZ code / sign / correction bits in the order of Figure G.7");
+    kani::cover!(e == 32766);
+    kani::cover!(has_prior && plen == 10);
+    kani::cover!(e == 0);
+}
+
+// ------------------------------------------------------------------------------------------------
+// first pass of a band (Ah = 0): a block whose band is all zero joins the run; the run is flushed at 32767
+// ------------------------------------------------------------------------------------------------
+fn check_first_all_zero(table: &BuiltHuffmanTable, zeros: &[i16]) {
+    let l = zeros.len(); // band length Se - Ss + 1 (0 for the DC-only scan Ss = Se = 0)
+    let e: u32 = kani::any();
+    kani::assume(e <= 32766);
+    let mut st = state_between_blocks(table, e, None);
+    let r = process_progressive_first(&mut st, 0, table, table, None, zeros, None);
+    assert!(r.is_ok(), "[C17,C01] every EOBn symbol has a code in this table: Ok");
+    std::mem::forget(r);
+    assert!(st.eobrun <= 32766, "[C17,C01] invariant: the run never stays at 32767 (EOB15 does not exist; symbol 0xF0 is ZRL)");
+    assert!(st.refinement_bits.is_empty() && st.refinement_bitlen.is_empty(), "[C17] a first pass buffers no correction bits");
+    let flushed = l > 0 && e + 1 == 32767;
+    if l == 0 {
+        assert!(st.eobrun == e, "[C17] an empty band (DC-only scan) takes no part in EOB runs");
+    } else if !flushed {
+        assert!(st.eobrun == e + 1, "[C17] an all-zero band adds one block to the run");
+    } else {
+        assert!(st.eobrun == 0, "[C17] the run is coded and reset when it reaches 32767 (T.81 Figure G.3)");
+    }
+    let total = if flushed { CODE_LEN + 14 } else { 0 };
+    let Some(raw) = drain(&mut st, total) else {
+        assert!(false, "[C17] nothing is written unless the run is flushed; a flushed run is EOB14 + 14 bits");
+        return;
+    };
+    if flushed {
+        let k: usize = kani::any();
+        kani::assume(k < total);
+        let want = if k < CODE_LEN { bit_of_value(14, CODE_LEN, k) } else { 1 };
+        assert!(bit_of_bytes(&raw, k) == want, "[C17] run 32767 = EOB14 code followed by the 14 low-order bits of 32767 (all ones)");
+    }
+    kani::cover!(flushed || l == 0);
+    kani::cover!(!flushed && e == 0);
+}
+
+#[kani::proof]
+#[kani::unwind(34)]
+#[kani::stub(crate::bit_writer::BitWriter::new, crate::bit_writer::verif_harness::new_reserved)]
+#[kani::stub(crate::bit_writer::BitWriter::emit_byte, crate::bit_writer::verif_harness::emit_byte_model)]
+#[kani::stub(std::vec::Vec::extend_from_slice, crate::bit_writer::verif_harness::extend_model)]
+#[kani::stub(std::vec::Vec::push, crate::bit_writer::verif_harness::push_model)]
+#[kani::stub(<[u8]>::fill, crate::bit_writer::verif_harness::fill_model)]
+fn progressive_first_eobrun_contract() {
+    let table = table_progressive();
+    check_first_all_zero(&table, &[]);
+    check_first_all_zero(&table, &[0, 0, 0]);
+}
+
+// ------------------------------------------------------------------------------------------------
+// refinement pass (Ah > 0), bands without newly-nonzero coefficients: the block joins the run iff a zero run or
+// correction bits are pending -- [2] and [2, 3] have no zero at all --, correction bits are buffered; flush at 32767
+// ------------------------------------------------------------------------------------------------
+#[kani::proof]
+#[kani::unwind(34)]
+#[kani::stub(crate::bit_writer::BitWriter::new, crate::bit_writer::verif_harness::new_reserved)]
+#[kani::stub(crate::bit_writer::BitWriter::emit_byte, crate::bit_writer::verif_harness::emit_byte_model)]
+#[kani::stub(std::vec::Vec::extend_from_slice, crate::bit_writer::verif_harness::extend_model)]
+#[kani::stub(std::vec::Vec::push, crate::bit_writer::verif_harness::push_model)]
+#[kani::stub(<[u8]>::fill, crate::bit_writer::verif_harness::fill_model)]
+fn progressive_refinement_eob_contract() {
+    let table = table_progressive();
+    check_refinement(&table, &[]);
+    check_refinement(&table, &[0]);
+    check_refinement(&table, &[2]);
+    check_refinement(&table, &[3, 0]);
+    check_refinement(&table, &[0, -3]);
+    check_refinement(&table, &[2, 3]);
+}
+
+// ------------------------------------------------------------------------------------------------
+// refinement pass, bands with a newly-nonzero coefficient (+-1): the pending run is coded FIRST, then (run, 1), sign
+// and the correction bits skipped over; a band ending in a coded coefficient starts no run, a tail after it does
+// ------------------------------------------------------------------------------------------------
+#[kani::proof]
+#[kani::unwind(34)]
+#[kani::stub(crate::bit_writer::BitWriter::new, crate::bit_writer::verif_harness::new_reserved)]
+#[kani::stub(crate::bit_writer::BitWriter::emit_byte, crate::bit_writer::verif_harness::emit_byte_model)]
+#[kani::stub(std::vec::Vec::extend_from_slice, crate::bit_writer::verif_harness::extend_model)]
+#[kani::stub(std::vec::Vec::push, crate::bit_writer::verif_harness::push_model)]
+#[kani::stub(<[u8]>::fill, crate::bit_writer::verif_harness::fill_model)]
+fn progressive_refinement_newly_nonzero_contract() {
+    let table = table_progressive();
+    check_refinement(&table, &[1]);
+    check_refinement(&table, &[0, -1]);
+    check_refinement(&table, &[-2, 1]);
+    check_refinement(&table, &[1, 0]);
+    check_refinement(&table, &[-1, 2]);
+    check_refinement(&table, &[0, 0, 1]);
+}
